@@ -8,7 +8,11 @@ from .. import hist
 from ..dirx import describe
 from ..harness import SHEBANG
 from ..runner import Acc, h8
-from .c01 import CFG, FAMILIES, starts
+from .c01 import CFG, starts
+from .c01 import FAMILIES as C01_FAMILIES
+
+# f_detfinish: a step that completed while detached and is re-created by its repaired creator
+FAMILIES = [*C01_FAMILIES, "f_detfinish"]
 
 LEVEL = "model_checking"
 RULE = (
